@@ -236,6 +236,13 @@ impl<F: Fn(SimplexDirection, usize) + Send + Clone> DuplexPipe<F> {
                 ExchangeOnceStatus::Finished(()) => break Ok(()),
                 ExchangeOnceStatus::TimedOut(()) => {
                     let expiration_deadline = Instant::now() - timeout;
+                    #[cfg(trusttunnel_verif)]
+                    crate::verif_emit!(
+                        "XC",
+                        "\"expired\":{}",
+                        self.left_pipe.last_activity < expiration_deadline
+                            && self.right_pipe.last_activity < expiration_deadline
+                    );
                     if self.left_pipe.last_activity < expiration_deadline
                         && self.right_pipe.last_activity < expiration_deadline
                     {
@@ -264,6 +271,12 @@ impl<F: Fn(SimplexDirection, usize) + Send + Clone> DuplexPipe<F> {
                 let ret = match another.await {
                     Ok(ExchangeOnceStatus::Finished(_)) => Ok(ExchangeOnceStatus::Finished(())),
                     Ok(ExchangeOnceStatus::TimedOut(dir)) => {
+                        #[cfg(trusttunnel_verif)]
+                        crate::verif_emit!(
+                            "TOD",
+                            "\"dir\":\"{}\"",
+                            if dir == SimplexDirection::Outgoing { "out" } else { "in" }
+                        );
                         Err(io_to_pipe_error(dir, ErrorKind::TimedOut.into()))
                     }
                     Err(e) => Err(e),
